@@ -18,3 +18,31 @@ package t_api
 //@ nopanic C13 C15
 //@ opaque
 //@ requires k >= ReadPromise && k <= Echo
+
+// A cursor is accepted only if its signature verifies (C14); a rejected cursor leaves the receiver alone.
+//@ func (*Cursor[SearchPromisesRequest]).Decode[SearchPromisesRequest]
+//@ props C14
+//@ nopanic C13
+//@ requires c != nil
+//@ ensures result == nil ==> jwtverifies(tokenString)
+//@ ensures result != nil ==> c.Next == old(c.Next)
+
+//@ func (*Cursor[SearchSchedulesRequest]).Decode[SearchSchedulesRequest]
+//@ props C14
+//@ nopanic C13
+//@ requires c != nil
+//@ ensures result == nil ==> jwtverifies(tokenString)
+//@ ensures result != nil ==> c.Next == old(c.Next)
+
+// NewCursor hands out a cursor only when Decode accepted the token.
+//@ func NewCursor[SearchPromisesRequest]
+//@ props C14
+//@ nopanic C13
+//@ ensures result1 == nil ==> result0 != nil && jwtverifies(tokenString)
+//@ ensures result1 != nil ==> result0 == nil
+
+//@ func NewCursor[SearchSchedulesRequest]
+//@ props C14
+//@ nopanic C13
+//@ ensures result1 == nil ==> result0 != nil && jwtverifies(tokenString)
+//@ ensures result1 != nil ==> result0 == nil
